@@ -1,4 +1,5 @@
 //! axv — conformance harness binding the TLA+ specifications in /verif/spec to AxmosDB.
+mod concdrv;
 mod crash;
 mod dbdrv;
 mod eng;
@@ -23,6 +24,7 @@ fn main() {
     let rest = util::Args(args[1..].to_vec());
     let code = match args[0].as_str() {
         "wal" => wal::main(&rest),
+        "conc" => concdrv::main(&rest),
         "values" => valuesdrv::main(&rest),
         "tree" => treedrv::main(&rest),
         "pages" => pagesdrv::main(&rest),
